@@ -1,13 +1,13 @@
-\* atomic-method configuration (one step per method): the sequential semantics that is replayed,
-\* transition by transition, on the real pool / timedQueue with a mock clock (binding B2).
-\* EdgeOut prints every transition of the state graph.
+\* the tree BEFORE the cool-down counter: any expiring queue entry re-activates a peer that is on
+\* cool-down. TLC must report NoEarlyReturn (cool-down -> remove -> add -> cool-down -> first entry expires);
+\* checks/C17.py replays that behaviour on the real pool.
 SPECIFICATION Spec
 CONSTANTS
-  Peers = {"p1", "p2"}
+  Peers = {"p1"}
   Callers = {"c1"}
   TimerSlots <- TwoSlots
   TTL = 2
-  MaxTime = 4
+  MaxTime = 3
   MaxOps = 6
   OpNames <- OpsCore
   CleanupThreshold = 2
@@ -15,6 +15,4 @@ CONSTANTS
   CallbacksUnderQueueLock = FALSE
   CountCooldowns = FALSE
 VIEW view
-
-INVARIANTS TypeOK CountExact ListStatusConsistent HasPeerExact OnlyActiveOffered NoEarlyReturn
-  CooldownNotLost QueueTimerLive CooldownsExact SlotsSuffice SingleTimer
+INVARIANTS NoEarlyReturn
